@@ -5,9 +5,9 @@ pid = sys.argv[1]
 wt = sys.argv[2] if len(sys.argv) > 2 else f"/tmp/mut/{pid}"
 extra = sys.argv[3] if len(sys.argv) > 3 else ""
 import os
-prevs = [f"/verif/seeded/{pid}{suf}/meta.json" for suf in ("", "b", "c", "d")]
+prevs = [f"/verif/seeded/{pid}{suf}/meta.json" for suf in ("", "b", "c", "d", "e", "f")]
 prevs = [q for q in prevs if os.path.exists(q)]
-if prevs and ("/mut2/" in wt or "/mut3/" in wt or "/mut4/" in wt):
+if prevs and any(f"/mut{k}/" in wt for k in range(2, 10)):
     if "/mut2/" in wt:
         prevs = prevs[:1]
     extra += "\nEarlier volunteers already produced the following changes for the same property:\n"
